@@ -16,6 +16,10 @@ EXPECT = [
     ('fq', 'NEGATIVE_ONE', [Q - 1], "-1"),
     ('fq', 'G1_GENERATOR_X', [0x17f1d3a73197d7942695638c4fa9ac0fc3688c4f9774b905a14e3a3f171bac586c55e83ff97a1aeffb3af00adb22c6bb], "standard G1 generator x"),
     ('fq', 'G1_GENERATOR_Y', [0x08b3f481e3aaa0f1a09e30ed741d8ae4fcf5e095d5d00af600db18cb2c04b3edd03cc744a2888ae40caa232946c5e7e1], "standard G1 generator y"),
+    ('fq', 'G2_GENERATOR_X_C0', [0x024aa2b2f08f0a91260805272dc51051c6e47ad4fa403b02b4510b647ae3d1770bac0326a805bbefd48056c8c121bdb8], "standard G2 generator x.c0"),
+    ('fq', 'G2_GENERATOR_X_C1', [0x13e02b6052719f607dacd3a088274f65596bd0d09920b61ab5da61bbdc7f5049334cf11213945d57e5ac7d055d042b7e], "standard G2 generator x.c1"),
+    ('fq', 'G2_GENERATOR_Y_C0', [0x0ce5d527727d6e118cc9cdc6da2e351aadfd9baa8cbdd3a76d429a695160d12c923ac9cc3baca289e193548608b82801], "standard G2 generator y.c0"),
+    ('fq', 'G2_GENERATOR_Y_C1', [0x0606c4a02ea734cc32acd2b02bc28b99cb3e287e85a763af267492ab572e99ab3f370d275cec1da1aaa9075ff05f79be], "standard G2 generator y.c1"),
     ('fq', 'FROBENIUS_COEFF_FQ2_C1', [1, Q - 1], "(-1)^k"),
     ('g1', 'XI', [11], "SSWU Z = 11 (RFC 9380 8.8.1)"),
     ('g1', 'ELLP_A', [0x144698a3b8e9433d693a02c96d4982b0ea985383ee66a8d8e8981aefd881ac98936f8da0e0f97f5cf428082d584c1d], "E1' A (RFC 9380 8.8.1)"),
@@ -74,6 +78,50 @@ pub proof fn g1_generator_on_curve()
     ensures ({hex(EXPECT[3][2][0])}int * {hex(EXPECT[3][2][0])}int) % QV() == ({hex(EXPECT[2][2][0])}int * {hex(EXPECT[2][2][0])}int * {hex(EXPECT[2][2][0])}int + 4) % QV()
 {{ assert(({hex(EXPECT[3][2][0])}int * {hex(EXPECT[3][2][0])}int) % QV() == ({hex(EXPECT[2][2][0])}int * {hex(EXPECT[2][2][0])}int * {hex(EXPECT[2][2][0])}int + 4) % QV()) by(compute); }}
 """)
+    # the G2 generator is on E2: y^2 = x^3 + 4(1 + u), written out on the coefficients
+    gx0, gx1, gy0, gy1 = (hex([e for e in EXPECT if e[1] == nm][0][2][0]) + 'int' for nm in ('G2_GENERATOR_X_C0', 'G2_GENERATOR_X_C1', 'G2_GENERATOR_Y_C0', 'G2_GENERATOR_Y_C1'))
+    u.add(f"""pub proof fn g2_generator_on_curve()
+    ensures ({gy0} * {gy0} - {gy1} * {gy1}) % QV() == ({gx0} * {gx0} * {gx0} - 3 * {gx0} * {gx1} * {gx1} + 4) % QV(),
+            (2 * {gy0} * {gy1}) % QV() == (3 * {gx0} * {gx0} * {gx1} - {gx1} * {gx1} * {gx1} + 4) % QV()
+{{
+    assert(({gy0} * {gy0} - {gy1} * {gy1}) % QV() == ({gx0} * {gx0} * {gx0} - 3 * {gx0} * {gx1} * {gx1} + 4) % QV()) by(compute);
+    assert((2 * {gy0} * {gy1}) % QV() == (3 * {gx0} * {gx0} * {gx1} - {gx1} * {gx1} * {gx1} + 4) % QV()) by(compute);
+}}""")
+    # the G2 SSWU square-root tables: ROOTS_OF_UNITY squared are 1, -1, -u, u (so +-ROOTS are all eight 8th roots of unity);
+    # ETAS squared are xi^3 times the four primitive 8th roots of unity (z^4 == -1, pairwise distinct)
+    def fq2_table(name):
+        t = src.text
+        it = src.find_const('g2', name) if hasattr(src, 'find_const') else None
+        l = limbs_of(it)
+        if len(l) != 48:
+            raise weave.AnchorLost(f"{name}: {len(l)} limbs, expected 48")
+        return [(l[12 * k:12 * k + 6], l[12 * k + 6:12 * k + 12]) for k in range(4)]
+    lit = lambda l: "fq_val(seq![" + ", ".join(hex(x) + "u64" for x in l) + "])"
+    sq_expected = [(1, 0), (Q - 1, 0), (0, Q - 1), (0, 1)]
+    for k, (c0, c1) in enumerate(fq2_table('ROOTS_OF_UNITY')):
+        a, b = lit(c0), lit(c1)
+        e0, e1 = sq_expected[k]
+        u.add(f"pub proof fn const_root_of_unity_{k}_squared() ensures ({a} * {a} - {b} * {b}) % QV() == {hex(e0)}int, (2 * {a} * {b}) % QV() == {hex(e1)}int\n"
+              f"{{ assert(({a} * {a} - {b} * {b}) % QV() == {hex(e0)}int) by(compute); assert((2 * {a} * {b}) % QV() == {hex(e1)}int) by(compute); }}")
+    # xi = -(2 + u); xi^3 = -(2 + 11 u)  [(2+u)^3 = 8 + 12u + 6u^2 + u^3 = 2 + 11u]
+    x0, x1 = (Q - 2) % Q, (Q - 11) % Q
+    zs = []
+    inv = pow((x0 * x0 + x1 * x1) % Q, -1, Q)
+    for k, (c0, c1) in enumerate(fq2_table('ETAS')):
+        v0 = sum(x << (64 * j) for j, x in enumerate(c0)) * RINV_Q % Q
+        v1 = sum(x << (64 * j) for j, x in enumerate(c1)) * RINV_Q % Q
+        s0, s1 = (v0 * v0 - v1 * v1) % Q, (2 * v0 * v1) % Q
+        # z = eta^2 / xi^3 (computed here, checked by Verus through eta^2 == xi^3 * z and z^4 == -1)
+        z0, z1 = (s0 * x0 + s1 * x1) * inv % Q, (s1 * x0 - s0 * x1) * inv % Q
+        zs.append((z0, z1))
+        a, b = lit(c0), lit(c1)
+        zz0, zz1 = hex(z0) + 'int', hex(z1) + 'int'
+        u.add(f"pub proof fn const_eta_{k}() ensures ({a} * {a} - {b} * {b}) % QV() == ({hex(x0)}int * {zz0} - {hex(x1)}int * {zz1}) % QV(), (2 * {a} * {b}) % QV() == ({hex(x0)}int * {zz1} + {hex(x1)}int * {zz0}) % QV(),\n"
+              f"    (({zz0} * {zz0} - {zz1} * {zz1}) * ({zz0} * {zz0} - {zz1} * {zz1}) - (2 * {zz0} * {zz1}) * (2 * {zz0} * {zz1})) % QV() == QV() - 1, (2 * ({zz0} * {zz0} - {zz1} * {zz1}) * (2 * {zz0} * {zz1})) % QV() == 0\n"
+              f"{{ assert(({a} * {a} - {b} * {b}) % QV() == ({hex(x0)}int * {zz0} - {hex(x1)}int * {zz1}) % QV()) by(compute); assert((2 * {a} * {b}) % QV() == ({hex(x0)}int * {zz1} + {hex(x1)}int * {zz0}) % QV()) by(compute);\n"
+              f"  assert((({zz0} * {zz0} - {zz1} * {zz1}) * ({zz0} * {zz0} - {zz1} * {zz1}) - (2 * {zz0} * {zz1}) * (2 * {zz0} * {zz1})) % QV() == QV() - 1) by(compute); assert((2 * ({zz0} * {zz0} - {zz1} * {zz1}) * (2 * {zz0} * {zz1})) % QV() == 0) by(compute); }}")
+    if len(set(zs)) != 4:
+        raise weave.AnchorLost("ETAS: the four quotients eta^2 / xi^3 are not pairwise distinct")
     # moduli of the two fields (raw limbs)
     for F, mod, mval in (('Fq', 'fq', Q), ('Fr', 'fr', R)):
         l = limbs_of(u.real_const(mod, 'MODULUS'))
